@@ -1,5 +1,9 @@
 P = "github.com/tochemey/goakt/v4/actor."
 SUB = {"(*" + P + "ReceiveContext).Tell": P + "vC21_rctxTell", "(*" + P + "PID).Tell": P + "vC21_pidTell"}
+HSUB = dict(SUB)
+HSUB.update({"slices.Sort[[]uint64 uint64]": P + "vC21_sort", "sort.Search": P + "vC21_search", P + "stringToBytes": P + "vC21_s2b"})
+PSUB = dict(SUB)
+PSUB.update({"slices.SortFunc[[]*" + P + "PID *" + P + "PID]": P + "vC21_sortPIDs"})
 CHECK = {
     "id": "C21",
     "packages": ["./actor"],
@@ -9,9 +13,12 @@ CHECK = {
         {"fn": P + "vC21_fresh", "replay": "model-only"},
         {"fn": P + "vC21_random", "replay": "model-only"},
         {"fn": P + "vC21_fanout", "replay": "model-only"},
+        {"fn": P + "vC21_hashRing", "replay": "model-only", "cover_optional": ("wrap-around",), "cases": {"removed": [0, 1, 2], "layout": [0, 1, 2]}, "opts": {"substitute": HSUB, "unwind": 10, "birth_guard_stores": True}},
+        {"fn": P + "vC21_rrPool", "replay": "model-only", "opts": {"substitute": PSUB, "unwind": 6, "map_order": "dihedral", "birth_guard_stores": True}},
+        {"fn": P + "vC21_hashRouter", "replay": "model-only", "cases": {"layout": [0, 1, 2]}, "opts": {"substitute": HSUB, "unwind": 10, "birth_guard_stores": True}},
     ],
     "opts": {"unwind": 7, "substitute": SUB, "go_inline": True},
-    "stop": list(SUB.keys()),
+    "stop": list(HSUB.keys()) + list(PSUB.keys()),
     "explanation": "router.dispatchToRoutees/routeByStrategy executed symbolically for round-robin (arbitrary uint32 counter, two consecutive messages; fresh router, 5 messages), random and fan-out; ReceiveContext.Tell / PID.Tell are substituted by recorders.",
     "bounds": {"routees": "1..4", "counter": "any uint32", "messages": "2 from an arbitrary counter; 5 from a fresh router"},
 }
